@@ -93,10 +93,11 @@ func runHostOnce(sc *Scenario) *HostRun {
 		cmd.Process.Signal(syscall.SIGQUIT) // goroutine dump into stderr
 		select {
 		case <-done:
+			syscall.Kill(-cmd.Process.Pid, syscall.SIGKILL)
 		case <-time.After(3 * time.Second):
+			syscall.Kill(-cmd.Process.Pid, syscall.SIGKILL)
+			<-done
 		}
-		syscall.Kill(-cmd.Process.Pid, syscall.SIGKILL)
-		<-done
 	}
 	errF.Close()
 	res.WallMs = time.Since(t0).Milliseconds()
